@@ -1,6 +1,7 @@
 (* C12 -- Every value has exactly one type and survives boxing unchanged.
    Property theorems only; proofs live in Proofs/ValueProofs.v. *)
 From Aelys Require Import Base.Tactics Extracted.ValueConsts Model.Value Proofs.ValueProofs.
+From Aelys Require Import Model.ValuePool Proofs.ValuePoolProofs.
 Local Open Scope N_scope.
 
 (* every 64-bit word is exactly one of float / int / bool / null / pointer / nested marker *)
@@ -79,3 +80,14 @@ Example C12_nonvacuous :
   /\ value_eq (v_int 3) (v_float 0x4008000000000000) = true
   /\ value_eq (v_float 0) (v_float 0x8000000000000000) = true.
 Proof. vm_compute. repeat split; try reflexivity; discriminate. Qed.
+
+(* a value stored as a constant of a compiled function is read back bit for bit (the pool merges
+   two constants only when they are the same word: `==` would merge 0.0 with -0.0 and 1 with 1.0),
+   and adding a constant never changes an earlier one *)
+Theorem C12_constant_pool_reads_back : forall (p : list N) (w : N),
+  let '(p', i) := pool_add p w in (i < length p')%nat /\ nth i p' 0%N = w.
+Proof. exact pool_add_reads_back. Qed.
+
+Theorem C12_constant_pool_keeps_earlier : forall (p : list N) (w : N) (j : nat), (j < length p)%nat ->
+  nth j (fst (pool_add p w)) 0%N = nth j p 0%N.
+Proof. exact pool_add_keeps_earlier. Qed.
